@@ -470,7 +470,12 @@ def pipe_stream(ctx, work, cap):
     pj = []
     for c, bash in pause_jobs[:ctx.size(40, 400)]:
         k = len(c["stages"])
-        confs = ["stage_spawned:%d=60" % i for i in range(k - 1)] + [",".join("stage_spawned:%d=30" % i for i in range(k)) + ",cmdsubst_reader_start=30"]
+        # a stage made of a shell loop runs one single-command pipeline per simple command, and those hit the
+        # pause point `stage_spawned:0` as well: only later indices are usable there
+        lo = 1 if any(s_ in SLOW for s_ in c["stages"]) else 0
+        confs = ["stage_spawned:%d=60" % i for i in range(lo, k - 1)]
+        if k - lo >= 2:
+            confs.append(",".join("stage_spawned:%d=30" % i for i in range(lo, k)) + ",cmdsubst_reader_start=30")
         for pz in confs:
             c2 = dict(c)
             c2["pauses"] = pz
